@@ -7,6 +7,7 @@
 package main
 
 import (
+	"bytes"
 	"crypto/sha256"
 	"encoding/json"
 	"flag"
@@ -46,6 +47,7 @@ type Run struct {
 	Delay     int
 	LIFO      bool
 	Race      bool
+	MapOrder  bool // fork over the iteration orders of small maps
 	MaxPaths  int64
 	MaxSteps  int64
 	MaxDepth  int
@@ -280,7 +282,7 @@ func nativeReplay(prop *Property, rf *replayFile, path string, replace map[strin
 	if prop.ReplayTags != "" {
 		tags += " " + prop.ReplayTags
 	}
-	cmd := exec.Command("go", "test", "-tags", tags, "-vet=off", "-count=1", "-v", "-timeout", "120s", "-overlay", ovPath, "-run", "^TestVerifReplay$", "."+rel)
+	cmd := exec.Command("go", "test", "-tags", tags, "-vet=off", "-count=1", "-v", "-timeout", nativeTimeout(rf.Kind), "-overlay", ovPath, "-run", "^TestVerifReplay$", "."+rel)
 	cmd.Dir = repoDir
 	cmd.Env = append(os.Environ(), "GOFLAGS=-mod=mod", "GOPROXY=off", "VERIF_REPLAY="+path, "VERIF_HARNESS="+nativeHarnessOf(rf))
 	lw := &limitedWriter{max: 1 << 20}
@@ -292,17 +294,17 @@ func nativeReplay(prop *Property, rf *replayFile, path string, replace map[strin
 	}
 	switch rf.Kind {
 	case "assert":
-		return strings.Contains(s, "VERIF-ASSERT-FAILED"), s
+		return lw.has("VERIF-ASSERT-FAILED"), s
 	case "panic":
-		return strings.Contains(s, "panic:") || strings.Contains(s, "fatal error:"), s
+		return lw.has("panic:") || lw.has("fatal error:"), s
 	case "deadlock":
-		return strings.Contains(s, "test timed out") || strings.Contains(s, "all goroutines are asleep"), s
+		return lw.has("test timed out") || lw.has("all goroutines are asleep"), s
 	case "budget":
-		return strings.Contains(s, "stack overflow") || strings.Contains(s, "test timed out") || strings.Contains(s, "goroutine stack exceeds"), s
+		return lw.has("stack overflow") || lw.has("test timed out") || lw.has("goroutine stack exceeds"), s
 	case "leak":
-		return strings.Contains(s, "VERIF-ASSERT-FAILED"), s
+		return lw.has("VERIF-ASSERT-FAILED"), s
 	}
-	return strings.Contains(s, "VERIF-ASSERT-FAILED") || strings.Contains(s, "panic:"), s
+	return lw.has("VERIF-ASSERT-FAILED") || lw.has("panic:"), s
 }
 
 type evidence struct {
@@ -342,6 +344,7 @@ func main() {
 	only := fs.String("only", "", "run only the runs whose name contains this")
 	maxPaths := fs.Int64("max-paths", 0, "dev: path budget")
 	race := fs.Bool("race", false, "dev: race analysis")
+	mapOrder := fs.Bool("map-order", false, "dev: fork over iteration orders of small maps")
 	noReplay := fs.Bool("no-native", false, "skip native replay (debug)")
 	replayTags := fs.String("replay-tags", "", "dev: extra build tags for native replay")
 	like := fs.String("like", "", "dev: take patterns, harness dirs, overrides and package from this property's first run")
@@ -389,7 +392,7 @@ func main() {
 		}
 		prop = &Property{ID: "DEV", HarnessDirs: strings.Split(*dir, ","), ReplayTags: *replayTags,
 			Runs: func(string) []Run {
-				return []Run{{Name: "dev", Pkg: *pkg, Harness: *fn, Params: pm, Overrides: om, Delay: *delay, MaxPaths: *maxPaths, Race: *race}}
+				return []Run{{Name: "dev", Pkg: *pkg, Harness: *fn, Params: pm, Overrides: om, Delay: *delay, MaxPaths: *maxPaths, Race: *race, MapOrder: *mapOrder}}
 			}}
 		if *patterns != "" {
 			prop.Patterns = strings.Split(*patterns, ",")
@@ -527,6 +530,18 @@ func runProperty(prop *Property, tier, replayPath string, workers int, solver st
 			continue
 		}
 		cfg := mkConfig(run, workers, solver, trace)
+		cfg.StopAfterNew = int(pick(tier, 1, 10))
+		cfg.IsKnown = func(v interp.Violation) bool {
+			if prop.OnlyMsgPrefix != "" && !strings.HasPrefix(v.Msg, prop.OnlyMsgPrefix) {
+				return true
+			}
+			for n := range known.Findings {
+				if known.Findings[n].matches(prop.ID, v) {
+					return true
+				}
+			}
+			return false
+		}
 		res := w.Explore(cfg)
 		fmt.Printf("[%s/%s] %s\n", prop.ID, run.Name, res.Summary())
 		totalPaths += res.Completed
@@ -711,15 +726,43 @@ func runProperty(prop *Property, tier, replayPath string, workers int, solver st
 
 // limitedWriter keeps the first and the last max bytes of what is written
 // (a crashing replay can print hundreds of megabytes of stack trace).
+// nativeTimeout: a non-termination witness is confirmed by the real code still
+// running after 40 s on a graph of at most three rows
+func nativeTimeout(kind string) string {
+	if kind == "budget" {
+		return "40s"
+	}
+	return "120s"
+}
+
 type limitedWriter struct {
 	max  int
 	head []byte
 	tail []byte
 	n    int
+	seen map[string]bool // markers found anywhere in the stream, also in the part that is dropped
+	prev []byte
 }
+
+var replayMarkers = []string{"VERIF-ASSERT-FAILED", "panic:", "fatal error:", "test timed out", "all goroutines are asleep", "stack overflow", "goroutine stack exceeds"}
+
+func (w *limitedWriter) has(m string) bool { return w.seen[m] }
 
 func (w *limitedWriter) Write(p []byte) (int, error) {
 	w.n += len(p)
+	if w.seen == nil {
+		w.seen = map[string]bool{}
+	}
+	win := append(w.prev, p...)
+	for _, m := range replayMarkers {
+		if !w.seen[m] && bytes.Contains(win, []byte(m)) {
+			w.seen[m] = true
+		}
+	}
+	if len(win) > 64 {
+		win = win[len(win)-64:]
+	}
+	w.prev = append([]byte{}, win...)
 	if room := w.max - len(w.head); room > 0 {
 		k := len(p)
 		if k > room {
@@ -785,7 +828,7 @@ func mkConfig(run Run, workers int, solver string, trace bool) interp.Config {
 	cfg := interp.Config{
 		Harness: run.Harness, HarnessPkg: run.Pkg, Params: run.Params, Overrides: run.Overrides,
 		DelayBound: run.Delay, SchedLIFO: run.LIFO, Workers: workers, SolverBin: solver, Trace: trace,
-		MaxPaths: run.MaxPaths, MaxSteps: run.MaxSteps, MaxDepth: run.MaxDepth, MaxEnum: run.MaxEnum, Race: run.Race,
+		MaxPaths: run.MaxPaths, MaxSteps: run.MaxSteps, MaxDepth: run.MaxDepth, MaxEnum: run.MaxEnum, Race: run.Race, MapOrderFork: run.MapOrder,
 		BudgetIsViolation: run.BudgetIsViolation, StopAfterViolations: run.StopAfter,
 	}
 	if trace {
